@@ -26,7 +26,6 @@ def guard(w, ev):
 def scenarios(tier):
     menu = [("EV", n) for n in EVENTS] + [
         ("SET", "clearRegionsAfterPrintFinishes", True), ("SET", "clearRegionsAfterPrintFinishes", False),
-        ("SETBAD", "clearRegionsAfterPrintFinishes", True),
         ("GCODE", "G28"), ("GCODE", "G1 X50 Y40 Z1"), ("GCODET", "G1 X50 Y40 Z1"), ("GCODE", "G1 X10 Y10 E1"),
         ("AT", "ExcludeRegion", "disable"),
         ("SCRIPT", "gcode", "afterPrintDone"), ("SCRIPT", "gcode", "beforePrintStarted"),
